@@ -18,7 +18,6 @@ use rten_text::models::{char_to_byte, Bpe, BpeError, BpeOptions, Model};
 use std::borrow::Cow;
 use std::collections::HashMap;
 
-const PRINTABLE_START: u32 = 33;
 
 fn show_tok(s: &str) -> String {
     if s.is_empty() { "%".to_string() } else { s.to_string() }
@@ -33,6 +32,38 @@ struct Spec {
     eow: Option<String>,
     merges: Vec<(String, String)>,
     pieces: Vec<String>,
+    /// `BpeOptions::ignore_merges`
+    ignore: bool,
+}
+
+/// `byte_to_char` as the harness understands the GPT-2 table (printable bytes map to themselves,
+/// the 68 others to U+0100 + k) - written down independently of the crate and of the Lean table.
+fn is_printable_byte(b: u8) -> bool {
+    (33..=126).contains(&b) || (161..=172).contains(&b) || b >= 174
+}
+
+fn byte_chars() -> Vec<char> {
+    let mut k = 0;
+    (0..=255u8)
+        .map(|b| {
+            if is_printable_byte(b) {
+                char::from(b)
+            } else {
+                k += 1;
+                char::from_u32(255 + k).unwrap()
+            }
+        })
+        .collect()
+}
+
+fn byte_ranks() -> Vec<u32> {
+    let np = (0..=255u8).filter(|&b| is_printable_byte(b)).count() as u32;
+    (0..=255u8)
+        .map(|b| {
+            let below = (0..b).filter(|&x| is_printable_byte(x) == is_printable_byte(b)).count() as u32;
+            if is_printable_byte(b) { below } else { np + below }
+        })
+        .collect()
 }
 
 impl Spec {
@@ -47,17 +78,26 @@ impl Spec {
         } else {
             hcommon::join(self.merges.iter().map(|(a, b)| format!("{}+{}", show_tok(a), show_tok(b))), ",")
         };
-        let p = if self.pieces.len() == 1 && self.pieces[0].is_empty() {
-            String::new()
+        let single_empty = self.pieces.len() == 1 && self.pieces[0].is_empty();
+        // plain pieces when they are letters only, hex bytes otherwise
+        let plain = self.pieces.iter().all(|p| p.bytes().all(|b| b.is_ascii_alphanumeric()));
+        let p = if single_empty {
+            "P=".to_string()
+        } else if plain {
+            format!("P={}", hcommon::join(self.pieces.iter().map(|p| show_tok(p)), ","))
         } else {
-            hcommon::join(self.pieces.iter().map(|p| show_tok(p)), ",")
+            let hex = |p: &String| {
+                if p.is_empty() { "%".to_string() } else { p.bytes().map(|b| format!("{b:02x}")).collect::<String>() }
+            };
+            format!("X={}", hcommon::join(self.pieces.iter().map(hex), ","))
         };
         format!(
-            "bpe V={} A={} E={} M={} P={}",
+            "bpe V={} A={} E={} M={} I={} {}",
             v,
-            self.alpha,
+            if self.alpha.is_empty() { "-" } else { self.alpha.as_str() },
             self.eow.clone().unwrap_or("-".into()),
             m,
+            self.ignore as u8,
             p
         )
     }
@@ -108,11 +148,10 @@ fn oracle_vocab(spec: &Spec) -> HashMap<String, u32> {
         }
         None => {
             // documented layout: bytes 0..256 by "printable first" rank, then byte+suffix, then merges
-            for c in 33u32..=126 {
-                let ch = char::from_u32(c).unwrap();
-                v.insert(ch.to_string(), c - PRINTABLE_START);
+            for (ch, rank) in byte_chars().into_iter().zip(byte_ranks()) {
+                v.insert(ch.to_string(), rank);
                 if let Some(sfx) = &spec.eow {
-                    v.insert(format!("{ch}{sfx}"), 256 + c - PRINTABLE_START);
+                    v.insert(format!("{ch}{sfx}"), 256 + rank);
                 }
             }
             let start = if spec.eow.is_some() { 512 } else { 256 };
@@ -142,7 +181,7 @@ fn run_impl(spec: &Spec) -> Result<Result<Vec<Vec<u32>>, String>, String> {
             vocab,
             added_tokens: Default::default(),
             end_of_word_suffix: spec.eow.clone(),
-            ignore_merges: false,
+            ignore_merges: spec.ignore,
         };
         let bpe = match Bpe::new(opts) {
             Ok(b) => b,
@@ -189,7 +228,25 @@ fn one_bpe(out: &mut Out, spec: &Spec, tag: &str) {
             }
             let mut dup_differs = false;
             for (p, ids) in spec.pieces.iter().zip(outs) {
-                let mut init: Vec<String> = p.chars().map(|c| c.to_string()).collect();
+                let table = byte_chars();
+                let mut init: Vec<String> = p.bytes().map(|b| table[b as usize].to_string()).collect();
+                if p.is_empty() {
+                    if !ids.is_empty() && fail.is_none() {
+                        fail = Some("empty piece produced tokens".into());
+                    }
+                    continue;
+                }
+                if spec.ignore {
+                    // `ignore_merges`: a piece that is itself a vocabulary entry is that single token
+                    let whole: String = init.concat();
+                    if let Some(&id) = v.get(&whole) {
+                        out.bucket("ignore_merges_whole_piece_hit");
+                        if ids != &vec![id] && fail.is_none() {
+                            fail = Some(format!("ignore_merges: piece {} is vocabulary entry {id} but encodes to {:?}", show_tok(p), ids));
+                        }
+                        continue;
+                    }
+                }
                 if let (Some(sfx), Some(l)) = (&spec.eow, init.last_mut()) {
                     l.push_str(sfx);
                 }
@@ -342,15 +399,41 @@ fn tables(alpha: &[char], depth: usize, cur: &mut Vec<(String, String)>, f: &mut
     }
 }
 
-fn exhaustive(out: &mut Out, max_depth: usize, max_len: usize, tag: &str) {
-    let alpha = ['a', 'b', 'c'];
-    let groups: Vec<Vec<String>> = (0..=max_len).map(|l| all_strings(&alpha, l)).collect();
+/// All distinct orderings of a table (`Bpe::new` accepts any order: an entry may use a token that
+/// only a *later* entry produces - such tables are not "training ordered").
+fn permutations(t: &[(String, String)]) -> Vec<Vec<(String, String)>> {
+    fn go(rest: &mut Vec<(String, String)>, cur: &mut Vec<(String, String)>, out: &mut Vec<Vec<(String, String)>>) {
+        if rest.is_empty() {
+            if !out.contains(cur) {
+                out.push(cur.clone());
+            }
+            return;
+        }
+        for i in 0..rest.len() {
+            let e = rest.remove(i);
+            cur.push(e.clone());
+            go(rest, cur, out);
+            cur.pop();
+            rest.insert(i, e);
+        }
+    }
+    let mut out = Vec::new();
+    go(&mut t.to_vec(), &mut Vec::new(), &mut out);
+    out
+}
+
+fn exhaustive(out: &mut Out, alpha: &[char], max_depth: usize, max_len: usize, tag: &str) {
+    let groups: Vec<Vec<String>> = (0..=max_len).map(|l| all_strings(alpha, l)).collect();
+    let ptag = format!("{tag}_reordered");
+    let astr: String = alpha.iter().collect();
     for depth in 0..=max_depth {
         let mut cur = Vec::new();
-        tables(&alpha, depth, &mut cur, &mut |t| {
-            for g in &groups {
-                let spec = Spec { vocab: None, alpha: "abc".into(), eow: None, merges: t.to_vec(), pieces: g.clone() };
-                one_bpe(out, &spec, tag);
+        tables(alpha, depth, &mut cur, &mut |t| {
+            for (pi, perm) in permutations(t).into_iter().enumerate() {
+                for g in &groups {
+                    let spec = Spec { vocab: None, alpha: astr.clone(), eow: None, merges: perm.clone(), pieces: g.clone(), ignore: false };
+                    one_bpe(out, &spec, if pi == 0 { tag } else { &ptag });
+                }
             }
         });
     }
@@ -420,6 +503,10 @@ fn random_bpe(out: &mut Out, rng: &mut Rng) {
             avail.push(m);
         }
     }
+    if rng.chance(1, 3) {
+        // any order is accepted by `Bpe::new`; a pair may be ranked before the merge producing its operand
+        rng.shuffle(&mut merges);
+    }
     let plain: Vec<String> = avail.iter().filter(|t| !t.contains('<')).cloned().collect();
     let np = 1 + rng.usize_below(6);
     let pieces: Vec<String> = (0..np).map(|_| random_piece(rng, &alpha, &plain)).collect();
@@ -464,8 +551,137 @@ fn random_bpe(out: &mut Out, rng: &mut Rng) {
     } else {
         None
     };
-    let spec = Spec { vocab, alpha: alpha.iter().collect(), eow, merges, pieces };
+    let ignore = rng.chance(1, 8);
+    let spec = Spec { vocab, alpha: alpha.iter().collect(), eow, merges, pieces, ignore };
     one_bpe(out, &spec, tag);
+}
+
+/// Byte-level family: pieces made of atoms with spaces, control characters and multi-byte UTF-8,
+/// merges over the GPT-2 "encoded byte" characters (e.g. `Ġ` for a space).
+fn random_bytes_bpe(out: &mut Out, rng: &mut Rng) {
+    let atoms = ["a", "b", " ", "\n", "é", "ß", "€", "\t", "\u{7f}", "ÿ", "\u{a0}"];
+    let table = byte_chars();
+    let na = 2 + rng.usize_below(4);
+    let mut chosen: Vec<&str> = Vec::new();
+    while chosen.len() < na {
+        let a = *rng.pick(&atoms);
+        if !chosen.contains(&a) {
+            chosen.push(a);
+        }
+    }
+    let mut base: Vec<String> = Vec::new();
+    for a in &chosen {
+        for b in a.bytes() {
+            let t = table[b as usize].to_string();
+            if !base.contains(&t) {
+                base.push(t);
+            }
+        }
+    }
+    let eow = if rng.chance(1, 6) { Some("</w>".to_string()) } else { None };
+    let mut avail = base.clone();
+    let mut merges: Vec<(String, String)> = Vec::new();
+    for _ in 0..rng.usize_below(10) {
+        let a = rng.pick(&avail).clone();
+        let mut b = rng.pick(&avail).clone();
+        if a.contains('<') {
+            continue;
+        }
+        if eow.is_some() && !b.contains('<') && rng.chance(1, 4) {
+            b.push_str("</w>");
+        }
+        let m = format!("{a}{b}");
+        merges.push((a, b));
+        if !avail.contains(&m) {
+            avail.push(m);
+        }
+    }
+    if rng.chance(1, 3) {
+        rng.shuffle(&mut merges);
+    }
+    let pieces: Vec<String> = (0..1 + rng.usize_below(4))
+        .map(|_| (0..rng.usize_below(11)).map(|_| *rng.pick(&chosen)).collect::<String>())
+        .collect();
+    let mut tag = "random_bytes";
+    let vocab = if rng.chance(1, 4) {
+        let mut keys = base.clone();
+        if let Some(sfx) = &eow {
+            for t in &base {
+                keys.push(format!("{t}{sfx}"));
+            }
+        }
+        for (a, b) in &merges {
+            for t in [a.clone(), b.clone(), format!("{a}{b}")] {
+                if !keys.contains(&t) {
+                    keys.push(t);
+                }
+            }
+        }
+        let mut ids: Vec<u32> = (0..keys.len() as u32 * 2).collect();
+        rng.shuffle(&mut ids);
+        tag = "random_bytes_supplied_vocab";
+        Some(keys.into_iter().zip(ids).collect())
+    } else {
+        None
+    };
+    let spec = Spec { vocab, alpha: base.concat(), eow, merges, pieces, ignore: rng.chance(1, 8) };
+    one_bpe(out, &spec, tag);
+}
+
+/// `tbl`: the crate's `char_to_byte()` inverted; `rank`: the single-byte token of each id 0..256 in a
+/// tokenizer whose vocabulary `build_vocab` generates. Both are compared with the generated Lean
+/// table (translator) and checked here against the harness's own reading of the GPT-2 table.
+fn table_requests(out: &mut Out) {
+    let res = hcommon::catch(|| {
+        let c2b = char_to_byte();
+        let mut cps = vec![0u32; 256];
+        for (ch, b) in &c2b {
+            cps[*b as usize] = *ch as u32;
+        }
+        (c2b.len(), cps)
+    });
+    let (ans, fail) = match res {
+        Err(m) => (format!("panic {m}"), None),
+        Ok((n, cps)) => {
+            let want: Vec<u32> = byte_chars().iter().map(|c| *c as u32).collect();
+            let mut distinct = cps.clone();
+            distinct.sort();
+            distinct.dedup();
+            let fail = if n != 256 || distinct.len() != 256 {
+                Some("byte_to_char is not a bijection onto 256 characters".to_string())
+            } else if cps != want {
+                Some("byte_to_char differs from the GPT-2 table".to_string())
+            } else {
+                None
+            };
+            (format!("cps={}", hcommon::join(cps.iter(), ",")), fail)
+        }
+    };
+    out.bucket("byte_table");
+    out.case("tbl", &ans, fail.as_deref(), true);
+
+    let res = hcommon::catch(|| {
+        let bpe = Bpe::new(BpeOptions { merges: &[], ..Default::default() }).ok()?;
+        (0..256u32)
+            .map(|id| bpe.get_token_str(id).and_then(|s| {
+                let mut it = s.chars();
+                let c = it.next()?;
+                if it.next().is_some() { None } else { Some(c as u32) }
+            }))
+            .collect::<Option<Vec<u32>>>()
+    });
+    let (ans, fail) = match res {
+        Err(m) => (format!("panic {m}"), None),
+        Ok(None) => ("err".to_string(), Some("single-byte token ids 0..256 not all present".to_string())),
+        Ok(Some(cps)) => {
+            let table = byte_chars();
+            let ranks = byte_ranks();
+            let ok = (0..256).all(|b| cps[ranks[b] as usize] == table[b] as u32);
+            (format!("cps={}", hcommon::join(cps.iter(), ",")), if ok { None } else { Some("byte token ids differ from the printable-first numbering".to_string()) })
+        }
+    };
+    out.bucket("byte_table");
+    out.case("rank", &ans, fail.as_deref(), true);
 }
 
 fn random_mrg(out: &mut Out, rng: &mut Rng) {
@@ -500,7 +716,18 @@ fn run(args: &Args) {
         eow: None,
         merges: m.iter().map(|(a, b)| (a.to_string(), b.to_string())).collect(),
         pieces: p.iter().map(|x| x.to_string()).collect(),
+        ignore: false,
     };
+    table_requests(&mut out);
+    // not training-ordered table: `ab a` ranked before the `a b` that produces `ab`
+    // (theorem c28_T4_all_occurrences_not_first_only; seeded change C28_b)
+    one_bpe(&mut out, &s(&[("ab", "a"), ("a", "b")], &["abab", "ababab", "aabab"]), "witness");
+    let mut ign = s(&[("a", "b"), ("ab", "c")], &["ab", "abc", "abcab", "c"]);
+    ign.ignore = true;
+    one_bpe(&mut out, &ign, "witness");
+    let mut bytes = s(&[("Ġ", "a"), ("Ã", "©")], &[" a é", "\n", "a a"]);
+    bytes.alpha = String::new();
+    one_bpe(&mut out, &bytes, "witness");
     one_bpe(&mut out, &s(&[("a", "b"), ("b", "c"), ("a", "b")], &["abc"]), "witness");
     one_bpe(&mut out, &s(&[("a", "b"), ("b", "c"), ("ab", "c")], &["abcab"]), "witness");
     one_bpe(&mut out, &s(&[("a", "a"), ("aa", "aa"), ("aaaa", "aaaa")], &["aaaaaaaa", "aaaaaaa", "aaa"]), "witness");
@@ -517,7 +744,8 @@ fn run(args: &Args) {
     one_bpe(&mut out, &eowv, "witness");
 
     if args.thorough {
-        exhaustive(&mut out, 3, 6, "exhaustive_abc");
+        exhaustive(&mut out, &['a', 'b', 'c'], 3, 6, "exhaustive_abc");
+        exhaustive(&mut out, &['a', 'b'], 3, 8, "exhaustive_ab");
         // 4-entry tables with all strings up to length 4
         let alpha = ['a', 'b', 'c'];
         let groups: Vec<Vec<String>> = (0..=4).map(|l| all_strings(&alpha, l)).collect();
@@ -531,19 +759,30 @@ fn run(args: &Args) {
                 eow: None,
                 merges: t.to_vec(),
                 pieces: groups[(k % 3) as usize + 2].clone(),
+                ignore: false,
             };
             one_bpe(&mut out, &spec, "exhaustive_abc_4merges");
+            let mut rev = spec.clone();
+            rev.merges.reverse();
+            if rev.merges != spec.merges {
+                one_bpe(&mut out, &rev, "exhaustive_abc_4merges_reordered");
+            }
         });
     } else {
-        exhaustive(&mut out, 2, 5, "exhaustive_abc");
+        exhaustive(&mut out, &['a', 'b', 'c'], 2, 5, "exhaustive_abc");
+        // alphabet {a,b}: every table of <= 3 entries in every rank order x every input of <= 6 symbols
+        exhaustive(&mut out, &['a', 'b'], 3, 6, "exhaustive_ab");
     }
     let n = if args.thorough { 200_000 } else { 20_000 };
     for _ in 0..n {
         random_bpe(&mut out, &mut rng);
     }
+    for _ in 0..n / 2 {
+        random_bytes_bpe(&mut out, &mut rng);
+    }
     for _ in 0..n {
         random_mrg(&mut out, &mut rng);
     }
     out.note("one `bpe` request encodes several pieces; exhaustive lines carry all strings over {a,b,c} of one length");
-    out.finish("exhaustive: every merge table over {a,b,c} with <=2 (quick) / <=3 (thorough, plus all 4-entry tables on lengths 2..4) entries whose operands are letters or earlier results (duplicates included) x every string of length <=5 / <=6; random: alphabets of 2..6 letters, <=12 merges with duplicates, unknown operands, empty-string tokens, end-of-word suffix, supplied vocabularies (injective, colliding ids, missing entries), pieces biased to runs and concatenations of merged tokens; mrg: random explicit merge maps with rank ties and merged ids equal to operands, through the bpe_merge hook; non-trivial = at least one merge applied");
+    out.finish("tbl/rank: the 256-entry byte<->char table and the single-byte ids; exhaustive: every merge table over {a,b,c} with <=2 (quick) / <=3 (thorough, plus all 4-entry tables and their reversal on lengths 2..4) entries whose operands are letters or results of other entries, in every order (duplicates included) x every string of length <=5 / <=6; the same over {a,b} with <=3 entries in every order x every string of length <=6 / <=8; random_bytes: atoms with spaces, control and multi-byte UTF-8 characters, merges over the encoded-byte characters, ignore_merges on/off; random: alphabets of 2..6 letters, <=12 merges with duplicates, unknown operands, empty-string tokens, end-of-word suffix, supplied vocabularies (injective, colliding ids, missing entries), pieces biased to runs and concatenations of merged tokens; mrg: random explicit merge maps with rank ties and merged ids equal to operands, through the bpe_merge hook; non-trivial = at least one merge applied");
 }
